@@ -45,9 +45,19 @@ def analyse(seed):
   history = None
   if r2.random() < 0.4:                       # the object analysed an experiment of the other cost scenario before
     history = tbrfam.gen_frame(seed + 91, cooldown=True, scenario='variable' if is_fixed else 'fixed')
+    if r2.random() < 0.6:
+      # ... an experiment with the same numbers of pre-period, test and cooldown days
+      for k in ('n_pre', 'n_test', 'n_cool'):
+        history[k] = spec[k]
+      nd = spec['n_pre'] + spec['n_test'] + spec['n_cool']
+      for g in history['geos']:
+        g['response'] = (g['response'] * (nd // len(g['response']) + 1))[:nd]
+        g['cost'] = (g['cost'] * (nd // len(g['cost']) + 1))[:nd]
+      out['same_shape_history'] = True
   out['reused'] = history is not None
   m = fit_iroas(spec, history=history)
-  for metric, tb, col in (('tbr_response', m.tbr_response, 'response'), ('tbr_cost', m.tbr_cost, 'cost')):
+  ref = fit_iroas(spec) if history is not None else m     # the posterior is taken from an object without a past
+  for metric, tb, col in (('tbr_response', ref.tbr_response, 'response'), ('tbr_cost', ref.tbr_cost, 'cost')):
     dist = tb.causal_cumulative_distribution()
     scales = [float(v) for v in dist.kwds['scale']]
     locs = [float(v) for v in dist.kwds['loc']]
